@@ -91,6 +91,33 @@ def scenario(sc):
                         w.enqueue(x)
                         return True
                     res['ret'] = p.run(iter(range(4)), enqueue_fn=enq)
+            elif name == 'enqueue_raises_once':
+                # the user's enqueue function fails transiently for one input while the worker stays alive: the input must still be processed
+                failed = []
+                with Pool(sq) as p:
+                    for i in range(2):
+                        p.add_worker(PersistentThreadWorker, userid=i)
+
+                    def enq(w, x):
+                        if x == 3 and not failed:
+                            failed.append(x)
+                            raise OSError('transient failure while enqueueing 3')
+                        w.enqueue(x)
+                        return True
+                    res['ret'] = p.run(iter(range(6)), enqueue_fn=enq, worker_extra_pending_inputs=sc.get('extra', 0))
+                    res['expect'] = sorted(x * x for x in range(6))
+            elif name == 'dead_first_worker':
+                # the first worker in pool order died before run() without the pool having noticed: the live ones must do the work
+                with Pool(sq, retry=sc.get('retry', True)) as p:
+                    ws = [p.add_worker(PersistentThreadWorker, userid=i) for i in range(3)]
+                    ws[0].terminate()
+                    try:
+                        res['ret'] = p.run(iter(range(6)))
+                        res['expect'] = sorted(x * x for x in range(6))
+                    except PoolError as e:
+                        res['poolerror'] = True
+                        res['partial'] = e.partial_results
+                        res['alive_at_poolerror'] = [w.is_alive() for w in ws]
             elif name == 'dead_before_run_noretry':
                 handed = []
                 with Pool(sq, retry=False) as p:
@@ -129,7 +156,7 @@ def scenario(sc):
         viol.append(f"results {sorted(res['ret'] or [])} != one per input {res['expect']}")
     if res.get('never_handed'):
         viol.append(f"retry off: inputs {res['never_handed']} are missing from the result although they were never handed to any worker")
-    if sc.get('check_poolerror', name == 'refuse_poolerror') and res.get('poolerror') and any(res.get('alive_at_poolerror', [])):
+    if sc.get('check_poolerror', name in ('refuse_poolerror', 'dead_first_worker')) and res.get('poolerror') and any(res.get('alive_at_poolerror', [])):
         viol.append(f"PoolError raised while workers are alive: {res.get('alive_at_poolerror')}, partial {res.get('partial')}")
     out.update(violates=bool(viol), violations=viol, observed={k: v for k, v in res.items() if k != 'calls'})
     return out
@@ -137,7 +164,7 @@ def scenario(sc):
 
 def main():
     sc = json.loads(sys.argv[1])
-    names = [sc['name']] if sc.get('name') else ['late_result', 'refuse_livelock', 'refuse_orphan', 'dead_before_run_noretry', 'plain']
+    names = [sc['name']] if sc.get('name') else ['late_result', 'refuse_livelock', 'refuse_orphan', 'dead_before_run_noretry', 'dead_first_worker', 'enqueue_raises_once', 'plain']
     outs = []
     for n in names:
         o = scenario(dict(sc, name=n))
